@@ -1,10 +1,17 @@
 // WalletSim (DESIGN.md §3.4): a descriptor wallet attached to a ChainSim node through interfaces::Chain, fed by real blocks
-// and mempool notifications (ChainSim's immediate signals => synchronous), plus an INDEPENDENT wallet ledger: the set of
+// and mempool notifications, plus an INDEPENDENT wallet ledger: the set of
 // wallet scripts (own expansion of the descriptors, never CWallet::IsMine) -> coins and balances recomputed from the active
 // chain (RefLedger replay from genesis) and the node mempool. Shares no code with wallet/receive.cpp / wallet.cpp tracking.
 //
+// IMPORTANT: construct the ChainSim with `opts.immediate_signals = false` (scheduler thread, as production). With immediate
+// (synchronous) signals CTxMemPool fires TransactionRemovedFromMempool BEFORE the entry is erased, so the wallet's callback still
+// finds the transaction in the mempool and keeps it "in mempool" after a replacement/eviction: a harness artifact, not a wallet
+// defect. Submit()/Deliver() drain the callback queue (SyncWithValidationInterfaceQueue); after any other node operation call
+// sim.SyncSignals() before looking at the wallet.
+//
 //   SetMockTime(...);                       // the target owns the clock (WalletSim sets it if it is still unset)
-//   ChainSim sim(opts);  LoadWalletBase(sim);  WalletSim ws(sim);      // ws must be destroyed BEFORE sim
+//   ChainSimOpts o; o.immediate_signals = false;
+//   ChainSim sim(o);  LoadWalletBase(sim);  WalletSim ws(sim);         // ws must be destroyed BEFORE sim
 //   CScript spk = ws.NewScript(OutputType::BECH32);  ... sim.MakeTx / ws.SignTx / ws.Submit / ws.Deliver ...
 //   std::string diff = ws.CompareWithLedger();       // balances + AvailableCoins vs the independent ledger
 #ifndef VERIF_KITS_WALLETSIM_H
